@@ -57,7 +57,7 @@ def check_one(mtj, op, relc, order=None, pre=None):
     def bad(kind, detail):
         out.append({'kind': kind, 'where': op, 'case': case,
                     'detail': '%s [input %s, relc=%r%s]' % (detail, model.mt_str(mt.root, mt.toks), relc,
-                                                          ', after negra_mark_heads + binarize' if pre else ''),
+                                                          (', after negra_mark_heads + binarize' if pre == 'binarize' else ', after add_topnode' if pre else '')),
                     'what': '%s: %s' % (op, kind)})
     t = build_any(mt, order)
     if pre == 'binarize':
@@ -66,6 +66,8 @@ def check_one(mtj, op, relc, order=None, pre=None):
         except Exception as e:
             bad('exception', 'negra_mark_heads + binarize before %s: %s: %s' % (op, type(e).__name__, e))
             return out, 0
+    elif pre == 'add_topnode':
+        t = transform.add_topnode(t)        # the root is now a TOP node with one child
     nodes = all_nodes(t)
     before = {id(x): x.parent for x in nodes}
     toks = sorted(raw_leaves(t), key=lambda x: x.data['num'])
@@ -219,7 +221,7 @@ def run_chunk(chunk):
                 j = mt.to_json()
                 for op, relc in ops_for(n):
                     idx += 1
-                    order = (None, 'rev', 'export')[idx % 3]
+                    order = (None, 'rev', 'export', 'written')[idx % 4]
                     jj = j
                     if relc is None and order == 'rev' and idx % 2 and n >= 2:
                         # a token without a tag (TIGER <t> without pos attribute): no option value may match it
@@ -227,7 +229,8 @@ def run_chunk(chunk):
                         nt[n // 2]['pos'] = None
                         jj = model.MT(1, nt, root).to_json()
                     vs, nmoved = check_one(jj, op, relc, order,
-                                           'binarize' if (idx % 4 == 0 and model.max_arity_of(sh) > 2) else None)
+                                           'binarize' if (idx % 4 == 0 and model.max_arity_of(sh) > 2) else
+                                           'add_topnode' if idx % 4 == 1 else None)
                     res.evals += 1
                     if nmoved:
                         res.nontrivial += 1
